@@ -59,6 +59,7 @@ def make_case(seed, tier):
         kind = rng.choice(['pattern', 'pattern', 'pattern+count', 'first',
                            'first+pattern+count'])
         t = {'name': 'tr%d' % i, 'project': rng.choice(['proj-a', 'proj-b']),
+             'key': 'k%d' % i,
              'input': {'a': 'in-%d' % i},
              'params': {'env': {'who': 'tr%d' % i}}}
         if 'pattern' in kind:
@@ -67,6 +68,14 @@ def make_case(seed, tier):
             t['count'] = rng.choice([1, 2, 3])
         if 'first' in kind:
             t['first_offset_min'] = rng.choice([2, 3])
+        if trigs and rng.random() < 0.35:
+            # the same trigger name in another project
+            o = rng.choice(trigs)
+            if o['project'] != t['project'] or rng.random() < 0.5:
+                t['name'] = o['name']
+                if o['project'] == t['project']:
+                    t['project'] = 'proj-b' if o['project'] == 'proj-a' \
+                        else 'proj-a'
         trigs.append(t)
     case['triggers'] = trigs
     case['horizon'] = rng.choice([200, 420, 700])
@@ -119,6 +128,14 @@ class Runner17(runner.Runner):
         orig_upd = sa_api.update_cron_trigger
         orig_del = sa_api.delete_cron_trigger
 
+        def trig_ids():
+            # harness-level read (the calling task holds the baton and no
+            # transaction is open)
+            from sqlalchemy import text
+            with m.db_base.get_engine().connect() as conn:
+                return set(r[0] for r in conn.execute(text(
+                    'SELECT id FROM cron_triggers_v2')).fetchall())
+
         def update_cron_trigger(identifier, values, session=None,
                                 query_filter=None, **kw):
             r = orig_upd(identifier, values, query_filter=query_filter, **kw)
@@ -126,6 +143,8 @@ class Runner17(runner.Runner):
                 t = sim.me()
                 me.advances.append({
                     'name': identifier, 'kind': 'update',
+                    'ids': [r[0].id] if (r[1] > 0 and r[0] is not None)
+                    else [],
                     'old': query_filter.get('next_execution_time'),
                     'new': values.get('next_execution_time'),
                     'remaining': values.get('remaining_executions'),
@@ -136,11 +155,13 @@ class Runner17(runner.Runner):
 
         def delete_cron_trigger(identifier, **kw):
             t = sim.me()
+            before = trig_ids()
             try:
                 r = orig_del(identifier, **kw)
             except Exception:
                 me.advances.append({
                     'name': identifier, 'kind': 'delete', 'old': None,
+                    'ids': [],
                     'new': None, 'won': False, 'now': sim.now,
                     'step': sim.step,
                     'node': t.node.name if t and t.node else None})
@@ -148,6 +169,7 @@ class Runner17(runner.Runner):
                 raise
             me.advances.append({
                 'name': identifier, 'kind': 'delete', 'old': None,
+                'ids': sorted(before - trig_ids()),
                 'new': None, 'won': bool(r), 'now': sim.now,
                 'step': sim.step,
                 'node': t.node.name if t and t.node else None})
@@ -177,13 +199,13 @@ class Runner17(runner.Runner):
                         t['name'], 'cronwf', dict(t['input']),
                         dict(t['params']), t.get('pattern'), first,
                         t.get('count'), None)
-                    self.created[t['name']] = {
+                    self.created[t['key']] = {
                         'id': trig.id, 'project': trig.project_id,
                         'first_next': trig.next_execution_time,
                         'count': trig.remaining_executions,
                         'pattern': t.get('pattern')}
                 except Exception as e:
-                    self.created[t['name']] = {'error': repr(e)}
+                    self.created[t['key']] = {'error': repr(e)}
             finally:
                 m.auth_ctx.set_ctx(None)
 
@@ -268,7 +290,7 @@ class Runner17(runner.Runner):
             with m.db_api.transaction(read_only=True):
                 rows = m.db_api.get_cron_triggers(insecure=True)
                 res.extra['triggers_left'] = dict(
-                    (t.name, {'next': t.next_execution_time,
+                    (t.id, {'next': t.next_execution_time, 'name': t.name,
                               'remaining': t.remaining_executions,
                               'project': t.project_id}) for t in rows)
         finally:
@@ -311,13 +333,14 @@ def evaluate(case, res):
             if c.get('id') and c['id'] in desc:
                 by_trig.setdefault(name, []).append(s)
     for t in case['triggers']:
-        name = t['name']
-        c = created.get(name) or {}
-        if 'error' in c:
+        key = t.get('key', t['name'])
+        name = '%s/%s' % (t['project'], t['name'])
+        c = created.get(key) or {}
+        if 'error' in c or not c.get('id'):
             continue
-        adv = [a for a in res.extra['advances'] if a['name'] == name]
-        wins = [a for a in adv if a['won']]
-        calls = by_trig.get(name, [])
+        wins = [a for a in res.extra['advances']
+                if a['won'] and c['id'] in a.get('ids', [])]
+        calls = by_trig.get(key, [])
         # one start per successful advance
         if len(calls) > len(wins):
             out.append(('C17.double_fire',
@@ -362,7 +385,7 @@ def evaluate(case, res):
                 out.append(('C17.over_count',
                             'trigger %s with count %d started %d workflows'
                             % (name, c['count'], len(calls)), sig))
-            left = res.extra['triggers_left'].get(name)
+            left = res.extra['triggers_left'].get(c['id'])
             if len(calls) >= c['count'] and left is not None:
                 out.append(('C17.over_count',
                             'trigger %s fired %d times (count %d) but still '
@@ -385,7 +408,19 @@ def evaluate(case, res):
                                                s['ctx'].get('project_id')),
                             sig))
         # liveness: nothing due is left behind while a processor is alive
-        left = res.extra['triggers_left'].get(name)
+        left = res.extra['triggers_left'].get(c['id'])
+        if left is None and c.get('count') is None and c.get('pattern'):
+            out.append(('C17.missed_fire',
+                        'trigger %s has no count but its row is gone at the '
+                        'end of the run' % name, sig))
+        if left is not None and (left['project'] != c['project'] or (
+                c.get('count') is None and c.get('pattern') and
+                left['remaining'] is not None) or (
+                c.get('count') is not None and
+                left['remaining'] is None)):
+            out.append(('C17.wrong_identity',
+                        'trigger %s (count %s) ended as %s' % (
+                            name, c.get('count'), left), sig))
         alive = case['processors'] - sum(1 for f in faults
                                          if f['kind'] == 'crash')
         stall = max([f['seconds'] for f in faults if f['kind'] == 'stall']
@@ -422,7 +457,10 @@ def probes(case, res):
         'delete_lost': st.get('cron_delete_lost', 0),
         'triggers_deleted_after_count': sum(
             1 for t in case['triggers'] if t.get('count') and
-            t['name'] not in (res.extra.get('triggers_left') or {})),
+            ((res.extra.get('created') or {}).get(t.get('key')) or {}).get(
+                'id') not in (res.extra.get('triggers_left') or {})),
+        'same_name_two_projects': int(len(set(
+            t['name'] for t in case['triggers'])) < len(case['triggers'])),
         'create_errors': sum(1 for c in (res.extra.get('created') or {})
                              .values() if 'error' in c),
     }
